@@ -82,7 +82,9 @@ pub fn build(forge: &mut Forge, cons: &Consensus) -> Result<Universe, String> {
     // (a TYPE script byte-identical to the LOCK of the genesis cells - empty args: the SQL indexer
     // keeps one script row for both roles, and a rollback of this block must not take the row
     // away from the cells that still use it as their lock)
-    let x4 = tx_with(cons, &[out(&x2, 1)], &[(b"abd", None, b"tail", 0), (b"ab", Some(b""), b"t1", 200)], 4);
+    // (a lock whose args continue "ab" with 24 bytes of 0xff: in a descending prefix search its keys
+    // lie behind every key a short fixed-length upper bound could name)
+    let x4 = tx_with(cons, &[out(&x2, 1)], &[(b"abd", None, b"tail", 0), (b"ab", Some(b""), b"t1", 200), (b"ab\xff\xff\xff\xff\xff\xff\xff\xff\xff\xff\xff\xff\xff\xff\xff\xff\xff\xff\xff\xff\xff\xff\xff\xff", None, b"ff", 170)], 4);
     // branch B
     let y1 = tx_with(cons, &g[0..1], &[(b"abd", Some(b"ab"), b"d9", 0), (b"ab", None, b"", 4_000)], 11);
     let y2 = tx_with(cons, &g[2..3], &[(b"abc", None, b"dz", 0), (b"abc", Some(b"abc"), b"q", 900), (b"ab\x00", None, b"", 640), (b"abc", Some(b""), b"t0", 610)], 12);
